@@ -363,29 +363,42 @@ def pickRanges (s : State) (subnet : String) : List (List Range) → List IP →
     | none => none
     | some ip => pickRanges s subnet rest (picked ++ [ip])
 
-/-- rollback loop: delete what was created, errors ignored; only a crash stops it -/
-def rollback (pl : Plan) : List IP → Nat → Store → Store × Bool
-  | [], _, st => (st, false)
+/-- rollback loop: delete what was created.  Delete errors do not stop it; a delete which fails with anything but
+    NotFound (in the model: an injected fault) leaves the object stored — its address is reported as `kept`.
+    Only a crash stops the loop.  Result: store, kept addresses, crashed? -/
+def rollback (pl : Plan) : List IP → Nat → Store → Store × List IP × Bool
+  | [], _, st => (st, [], false)
   | ip :: rest, n, st =>
-    if (sDelete pl n st ip).2 = some .crashed then ((sDelete pl n st ip).1, true)
-    else rollback pl rest (n + 1) (sDelete pl n st ip).1
+    if (sDelete pl n st ip).2 = some .crashed then ((sDelete pl n st ip).1, [], true)
+    else
+      ((rollback pl rest (n + 1) (sDelete pl n st ip).1).1,
+       (if (sDelete pl n st ip).2 = some .injected then ip :: (rollback pl rest (n + 1) (sDelete pl n st ip).1).2.1
+        else (rollback pl rest (n + 1) (sDelete pl n st ip).1).2.1),
+       (rollback pl rest (n + 1) (sDelete pl n st ip).1).2.2)
 
-/-- second pass: create all objects, roll back on the first failure (fact `rollbackOnCreateFailure`) -/
-def createAll (doRollback : Bool) (pl : Plan) (r : Rec) : List IP → List IP → Nat → Store → Store × Option Err
-  | [], _, _, st => (st, none)
+/-- second pass: create all objects, roll back on the first failure (fact `rollbackOnCreateFailure`).
+    Result: store, error, addresses whose rollback delete failed -/
+def createAll (doRollback : Bool) (pl : Plan) (r : Rec) : List IP → List IP → Nat → Store → Store × Option Err × List IP
+  | [], _, _, st => (st, none, [])
   | ip :: rest, done, n, st =>
     match sCreate pl n st ip r with
     | (st', none) => createAll doRollback pl r rest (done ++ [ip]) (n + 1) st'
     | (st', some e) =>
-      if e = .crashed then (st', some .crashed)
+      if e = .crashed then (st', some .crashed, [])
       else if doRollback then
-        (if (rollback pl done (n + 1) st').2 then ((rollback pl done (n + 1) st').1, some .crashed)
-         else ((rollback pl done (n + 1) st').1, some e))
-      else (st', some e)
+        (if (rollback pl done (n + 1) st').2.2 then ((rollback pl done (n + 1) st').1, some .crashed, [])
+         else ((rollback pl done (n + 1) st').1, some e, (rollback pl done (n + 1) st').2.1))
+      else (st', some e, [])
 
 def memAllocAll (s : State) (r : Rec) : List IP → State
   | [] => s
   | ip :: rest => memAllocAll (memAlloc s ip r) r rest
+
+/-- last part of `AllocateInSubnetsAndIPRange`: on success all picks enter the allocated table; on failure the
+    addresses whose rollback delete failed do (fact `rollbackKeepsUndeletedInMemory`; before that fix: nothing) -/
+def allocRangesFinish (keep : Bool) (s : State) (r : Rec) (picks : List IP) : Store × Option Err × List IP → State × Out
+  | (st, some e, kept) => ({ (if keep then memAllocAll s r kept else s) with store := st }, .fail e)
+  | (st, none, _) => ({ memAllocAll s r picks with store := st }, { ips := picks })
 
 /-- `AllocateInSubnetsAndIPRange`; with no ranges it is `AllocateInSubnet` (which needs the choice) -/
 def allocateInSubnetsAndRanges (s : State) (key subnet : String) (ranges : List (List Range)) (a : Attr)
@@ -396,9 +409,8 @@ def allocateInSubnetsAndRanges (s : State) (key subnet : String) (ranges : List 
     match pickRanges s subnet ranges [] with
     | none => (s, .fail .noEnough)
     | some picks =>
-      match createAll Generated.Ipam.rollbackOnCreateFailure pl (mkRec key a s.clock) picks [] 0 s.store with
-      | (st, some e) => ({ s with store := st }, .fail e)
-      | (st, none) => ({ memAllocAll s (mkRec key a s.clock) picks with store := st }, { ips := picks })
+      allocRangesFinish Generated.Ipam.rollbackKeepsUndeletedInMemory s (mkRec key a s.clock) picks
+        (createAll Generated.Ipam.rollbackOnCreateFailure pl (mkRec key a s.clock) picks [] 0 s.store)
 
 /-! ## event handlers (no store call) -/
 
@@ -411,11 +423,15 @@ def fipAssignEvent (s : State) (e : Event) : State × Out :=
       (memAlloc s e.ip { key := e.key, policy := e.policy, node := "", uid := "", reserved := true, ts := s.clock }, .ok)
     else (s, .fail .mem)
 
-/-- `handleFIPUnassign` for a labelled object -/
-def fipUnassignEvent (s : State) (e : Event) : State × Out :=
+/-- `handleFIPUnassign` for a labelled object; `checks` = the cached record is only released if it still carries the
+    `reserved` label (fact `unassignEventChecksReserved`; before that fix: whatever the cache held was released) -/
+def fipUnassignEventG (checks : Bool) (s : State) (e : Event) : State × Out :=
   match s.alloc.get e.ip with
   | none => (s, .fail .mem)
-  | some _ => (memFree s e.ip, .ok)
+  | some r => if checks && !r.reserved then (s, .fail .mem) else (memFree s e.ip, .ok)
+
+def fipUnassignEvent (s : State) (e : Event) : State × Out :=
+  fipUnassignEventG Generated.Ipam.unassignEventChecksReserved s e
 
 /-! ## ConfigurePool -/
 
@@ -591,13 +607,17 @@ def insertEvent (e : Event) : List Event → List Event
 
 def sortEvents (l : List Event) : List Event := l.foldl (fun acc e => insertEvent e acc) []
 
+def addEvent (ip : IP) (r : Rec) : Event := { assign := true, ip := ip, key := r.key, policy := r.policy }
+def delEvent (ip : IP) (r : Rec) : Event := { assign := false, ip := ip, key := r.key, policy := r.policy }
+
 /-- watch events caused by a change of the store: a labelled object appeared (add) or disappeared (delete),
-    whoever did it; adds first, each group by ascending address (events of different addresses commute) -/
+    whoever did it; adds first, each group by ascending address (events of different addresses commute).
+    (`get p.1 == some p.2`: only the visible binding of a name counts.) -/
 def storeEvents (before after : Store) : List Event :=
-  sortEvents (after.filterMap (fun p => if p.2.reserved && (before.get p.1).isNone
-      then some { assign := true, ip := p.1, key := p.2.key, policy := p.2.policy } else none)) ++
-  sortEvents (before.filterMap (fun p => if p.2.reserved && (after.get p.1).isNone
-      then some { assign := false, ip := p.1, key := p.2.key, policy := p.2.policy } else none))
+  sortEvents (after.filterMap (fun p => if p.2.reserved && (after.get p.1 == some p.2) && (before.get p.1).isNone
+      then some (addEvent p.1 p.2) else none)) ++
+  sortEvents (before.filterMap (fun p => if p.2.reserved && (before.get p.1 == some p.2) && (after.get p.1).isNone
+      then some (delEvent p.1 p.2) else none))
 
 /-- is the observed choice one the code can make in this state -/
 def Op.admissible (s : State) : Op → Bool
